@@ -348,7 +348,6 @@ func (s *Stream) WriteSCTP(payload []byte, ppi PayloadProtocolIdentifier) (int, 
 	err := s.association.sendPayloadData(s.writeDeadline, chunks)
 	if err != nil { //nolint:nestif
 		s.lock.Lock()
-		s.bufferedAmount -= uint64(n)
 		if useInterleaving {
 			if unordered {
 				s.nextUnorderedMID--
@@ -457,10 +456,17 @@ func (s *Stream) packetize(raw []byte, ppi PayloadProtocolIdentifier) ([]*chunkP
 		s.sequenceNumber++
 	}
 
-	s.bufferedAmount += uint64(len(raw))
-	s.log.Tracef("[%s] bufferedAmount = %d", s.name, s.bufferedAmount)
-
 	return chunks, unordered
+}
+
+// onWriteAccepted counts a message as buffered. It is called by the association in the
+// moment the message is queued for transmission: a write that is still waiting for its
+// turn, or that gives up waiting, has not been accepted and is not part of the amount.
+func (s *Stream) onWriteAccepted(nBytes int) {
+	s.lock.Lock()
+	s.bufferedAmount += uint64(nBytes) //nolint:gosec // G115
+	s.log.Tracef("[%s] bufferedAmount = %d", s.name, s.bufferedAmount)
+	s.lock.Unlock()
 }
 
 // Close closes the write-direction of the stream.
